@@ -38,6 +38,7 @@ def run(ctx):
     C19.err_adapters(ctx, facts)
     align(ctx, facts)
     rendezvous_waker(ctx, facts)
+    rendezvous_table(ctx, facts)
     spare(ctx, facts)
     # the "cannot deadlock while the window has room" clause rests on the buffers' waker discipline (shared with C14)
     from rules import C14
@@ -406,6 +407,84 @@ def rendezvous_waker(ctx, facts):
     stale = [n for n in nones if n in reach]
     ok = len(writes) >= 2 and bool(nones) and not stale
     ctx.ob("WAKE-latest", "add_waker:none-only-after-storing-the-waker", ok, "a receiver told to wait has its current waker registered" if ok else "StreamCollection::add_waker can answer `None` (wait) without having stored the caller's current waker: when the stream arrives the stale / missing waker is woken and the receive stalls", site_of(b, stale[0]) if stale else site_of(b))
+
+
+def rendezvous_table(ctx, facts):
+    """StreamCollection is the rendezvous between the network layer (add_stream, when a peer's request for a channel
+    arrives) and the receiving protocol (add_waker, when it first polls the channel), in either order.  Per key it is a
+    four-state machine: absent -> Waiting(waker) | Ready(stream); Waiting -> Ready (and the parked receiver is woken);
+    Ready -> Completed (the stream is handed out once); everything else is a second stream or a second reader for the
+    same (query, peer, step) and must panic rather than replace or hand out something twice."""
+    from rules.C17 import variant_arms
+    ctx.rule("RENDEZVOUS: evaluated per arm of the Entry / StreamState matches - add_stream: absent => insert(Ready(stream)); Waiting => replace(entry, Ready(stream)) and wake the replaced waker on every returning path; Ready / Completed => no return (panic) and no write.  add_waker: Ready => replace(entry, Completed) on every returning path and Some(replaced stream) is returned only there; Completed => no return (panic); absent => insert(Waiting(waker.clone()))")
+    P = "helpers::transport::stream::collection::StreamCollection::<I, S>::"
+    for fn in ("add_stream", "add_waker"):
+        b = facts.bodies.get(P + fn)
+        if b is None:
+            ctx.missing("RENDEZVOUS", "StreamCollection::" + fn)
+            continue
+        ctx.count(bodies=1)
+        rets = [bb for bb in b.live_blocks() if b.term(bb)["k"] == "ret"]
+        ent = variant_arms(b, "std::collections::hash_map::Entry", facts)
+        sta = [x for x in variant_arms(b, "collection::StreamState", facts) if "Entry<" not in (b.local_ty(x[1][0]) or "") and {"Waiting", "Ready", "Completed"} <= set(x[2])]
+        if len(ent) != 1 or len(sta) != 1:
+            ctx.missing("RENDEZVOUS", f"{fn}: one match on the map entry and one on the stored StreamState (found {len(ent)}, {len(sta)})")
+            continue
+        earms, sarms = ent[0][2], sta[0][2]
+
+        def calls(rx, argpred=None):
+            out = set()
+            for bb, t in b.calls():
+                if re.search(rx, F.callee(t)[0] or ""):
+                    args = [str(flow.expr_of(b, x, max_depth=25)) for x in t["args"]]
+                    if argpred is None or argpred(args):
+                        out.add(bb)
+            return out
+
+        def cut_for(state):
+            """inside the arm for `state`, the value that mem::replace(entry, ..) returns is that same state: the other
+            edges of a match on it (`let StreamState::X(v) = replace(..) else { unreachable!() }`, or an if-let) are dead"""
+            cut = set()
+            for sw, pl, arms in variant_arms(b, "collection::StreamState", facts):
+                if "mem::replace" in str(flow.expr_of(b, {"cp": pl}, max_depth=8)) and state in arms:
+                    cut |= {(sw, x) for x in b.succs(sw) if x != arms[state]}
+            return frozenset(cut)
+
+        def returns_from(start, avoid=frozenset(), state=None):
+            r = b.reachable(start, avoid=frozenset(avoid), avoid_edges=cut_for(state) if state else frozenset())
+            return [x for x in rets if x in r]
+
+        writes_any = calls(r"mem::replace$|VacantEntry.*::insert$|OccupiedEntry.*::(insert|remove|remove_entry)$")
+        if fn == "add_stream":
+            ins = calls(r"VacantEntry.*::insert$", lambda a: "'Ready')" in a[1] and "('arg', 3)" in a[1])
+            rep = calls(r"mem::replace$", lambda a: "'Ready')" in a[1] and "('arg', 3)" in a[1])
+            wk = calls(r"Waker::wake(_by_ref)?$", lambda a: "mem::replace" in a[0])
+            ok = not returns_from(earms["Vacant"], ins) and bool(ins)
+            ctx.ob("RENDEZVOUS", "add_stream:absent=>Ready(stream)", ok, "a stream that arrives first is stored as Ready" if ok else "a stream arriving before its receiver is not stored as Ready(stream) on every path: the receiver waits forever", site_of(b, earms["Vacant"]))
+            ok = bool(rep) and not returns_from(sarms["Waiting"], rep, "Waiting")
+            ctx.ob("RENDEZVOUS", "add_stream:Waiting=>Ready(stream)", ok, "the stream replaces the parked waker" if ok else "with a receiver already waiting, the arriving stream is not stored as Ready(stream) on every path", site_of(b, sarms["Waiting"]))
+            ok = bool(wk) and not returns_from(sarms["Waiting"], wk, "Waiting")
+            ctx.ob("RENDEZVOUS", "add_stream:Waiting=>wake", ok, "the waker taken out of the entry is woken" if ok else "a receiver parked in Waiting is not woken when its stream arrives (the waker replaced by Ready(stream) is dropped or a different one is woken)", site_of(b, sarms["Waiting"]))
+            for v in ("Ready", "Completed"):
+                r = returns_from(sarms[v]) if sarms[v] != sarms["Waiting"] else ["shares the Waiting arm"]
+                w = [x for x in writes_any if x in b.reachable(sarms[v])] if sarms[v] != sarms["Waiting"] else []
+                ok = not r and not w
+                ctx.ob("RENDEZVOUS", f"add_stream:{v}=>panic", ok, "a second stream for the same (query, peer, step) is refused loudly" if ok else f"a second stream for a key whose entry is {v} is accepted ({'returns normally' if r else 'overwrites the entry'}): records of two requests are mixed into / replace one channel", site_of(b, sarms[v]))
+        else:
+            rep = calls(r"mem::replace$", lambda a: "'Completed')" in a[1])
+            ok = bool(rep) and not returns_from(sarms["Ready"], rep, "Ready")
+            ctx.ob("RENDEZVOUS", "add_waker:Ready=>Completed", ok, "handing the stream out leaves a tombstone" if ok else "a Ready stream can be handed out without marking the entry Completed: a second reader for the same channel is not detected / the stream stays in the map", site_of(b, sarms["Ready"]))
+            dom = b.dominators()
+            somes = [(bb, st) for bb, idx, st in b.iter_assigns() if st["p"] == [0] and st["r"]["k"] == "agg" and st["r"].get("adt") == "std::option::Option" and st["r"].get("vn") == "Some"]
+            ok = bool(somes) and all(flow.dominates(dom, sarms["Ready"], bb) and "mem::replace" in str(flow.expr_of(b, st["r"]["ops"][0], max_depth=25)) for bb, st in somes)
+            ctx.ob("RENDEZVOUS", "add_waker:Some-is-the-replaced-stream", ok, "Some(stream) is returned only in the Ready arm and is the value taken out of the entry" if ok else "add_waker returns Some(..) outside the Ready arm or something other than the stream it took out of the entry", site_of(b, somes[0][0]) if somes else site_of(b))
+            r = returns_from(sarms["Completed"])
+            w = [x for x in writes_any if x in b.reachable(sarms["Completed"])]
+            ok = not r and not w
+            ctx.ob("RENDEZVOUS", "add_waker:Completed=>panic", ok, "a second reader of a consumed channel is refused loudly" if ok else "asking again for a stream that was already handed out does not panic: the second receiver waits forever or gets another stream", site_of(b, sarms["Completed"]))
+            ins = calls(r"VacantEntry.*::insert$", lambda a: "'Waiting')" in a[1] and "('arg', 3)" in a[1])
+            ok = bool(ins) and not returns_from(earms["Vacant"], ins)
+            ctx.ob("RENDEZVOUS", "add_waker:absent=>Waiting(waker)", ok, "a receiver that comes first parks its waker" if ok else "a receiver polling before the stream arrived does not leave Waiting(waker) in the map", site_of(b, earms["Vacant"]))
 
 
 # ---------------------------------------------------------------------------------------------
